@@ -391,6 +391,7 @@ class CodeBuilder:
             if (
                 not self.allow_postponed_evaluation
                 or not config.allow_postponed_evaluation
+                or self.dialect is not None
             ):
                 raise
             self._add_unpack_method_lines_lazy(method_name)
@@ -850,6 +851,7 @@ class CodeBuilder:
             if (
                 not self.allow_postponed_evaluation
                 or not config.allow_postponed_evaluation
+                or self.dialect is not None
             ):
                 raise
             self._add_pack_method_lines_lazy(method_name)
